@@ -373,6 +373,9 @@ func (g *G) c18Loop() *c18Case {
 		e1 := c
 		e2 := s2.Point{Vector: e1.Ortho().Normalize()}
 		e3 := s2.Point{Vector: e1.Cross(e2.Vector).Normalize()}
+		if r.Bool() { // the coordinate axes themselves (exact antipodes, exact right angles)
+			e1, e2, e3 = c18Raw(1, 0, 0), c18Raw(0, 1, 0), c18Raw(0, 0, 1)
+		}
 		six := []s2.Point{e1, e2, e3, {Vector: e1.Mul(-1)}, {Vector: e2.Mul(-1)}, {Vector: e3.Mul(-1)}}
 		perm := []int{0, 1, 2, 3, 4, 5}
 		for i := 5; i > 0; i-- {
@@ -380,10 +383,14 @@ func (g *G) c18Loop() *c18Case {
 			perm[i], perm[j] = perm[j], perm[i]
 		}
 		m := 4 + r.Intn(3)
-		eps := math.Pow(10, -9+3*r.Float())
+		eps := math.Pow(10, -9+3.7*r.Float()) // up to 5e-6: inside the 1e-5 window of the origin switch
 		var pts []s2.Point
 		for _, k := range perm[:m] {
 			q := six[k]
+			if r.Bool() { // half of the vertices stay EXACT (six[k+3] is the exact negation of six[k])
+				pts = append(pts, q)
+				continue
+			}
 			d := r3.Vector{X: r.Float()*2 - 1, Y: r.Float()*2 - 1, Z: r.Float()*2 - 1}.Mul(eps)
 			pts = append(pts, s2.Point{Vector: q.Add(d).Normalize()})
 		}
